@@ -162,7 +162,7 @@ def run_dm1(case):
         viol.add('dm1_after_stop', 'the DM1 callback ran %d more time(s) after stop_send returned at %.3f (cycle %.3f s)' % (len(sent) - n_at_stop, stopped.get('t', -1), cycle), **tag)
     else:
         obs['stop_observed'] += 1
-    if n_at_stop != ncycles:
+    if n_at_stop not in (ncycles, ncycles + 1):          # the first DM1 may go out at start_send or one cycle later
         viol.add('dm1_cycle_count', '%d DM1 cycles ran in %d cycle times before stop_send' % (n_at_stop, ncycles), **tag)
     # 2. subscribers got every cycle exactly, in order
     for i in range(nrx):
